@@ -978,6 +978,147 @@ def check_module_effects(ctx: Ctx, rule: str = "R-MODULE-EFFECTS"):
     return n
 
 
+_MUTABLE_CTORS = ("list", "dict", "set", "SortedSet", "SortedDict", "SortedList", "defaultdict", "OrderedDict", "Counter", "deque", "bytearray",
+                  "np.array", "np.zeros", "np.ones", "np.empty", "np.full", "numpy.array", "numpy.zeros", "numpy.empty", "nb.typed.List", "nb.typed.Dict")
+
+
+def check_class_state(ctx: Ctx, rule: str = "R-CLASS-STATE", judge: bool = False):
+    """closedness guard: the rules read `self.x` as state of *this* object.  A mutable container bound at class level and not rebound by every
+    constructor is one object shared by all instances of the class: whatever one instance adds to it, every other instance (the reference and
+    its samples, a continuum and its copy) sees.  The properties about independent objects (C13, C14: `judge`) report a class-level container
+    that a method mutates in place through self as VIOLATED (recognised shape); for every other property, and for a container nobody mutates,
+    it is UNDECIDED (their rules read `self.x` as this object's state)."""
+    M = ctx.model
+    if ("class-state", judge) in ctx.notes.setdefault("records_checked", set()) or (not judge and ("class-state", True) in ctx.notes["records_checked"]):
+        return 0
+    ctx.notes["records_checked"].add(("class-state", judge))
+    n = 0
+    analysed_classes = {M.functions[q].cls.name for q in ctx.functions_analysed if q in M.functions and M.functions[q].cls is not None}
+    for c in M.classes.values():
+        if not judge and c.name not in analysed_classes and not any(k.name in analysed_classes for k in M.subclasses.get(c.name, [])):
+            continue
+        for attr, v in c.class_attrs.items():
+            mutable = isinstance(v, (ast.List, ast.Dict, ast.Set, ast.ListComp, ast.DictComp, ast.SetComp)) or \
+                (isinstance(v, ast.Call) and (dotted(v.func) in _MUTABLE_CTORS or (dotted(v.func) or "").split(".")[-1] in ("SortedSet", "SortedDict", "SortedList", "defaultdict")))
+            if not mutable:
+                continue
+            n += 1
+            # rebound by every constructor on every path?
+            rebound = False
+            for k in M.mro(c):
+                init = k.methods.get("__init__")
+                if init is None:
+                    continue
+                from ..cfg import CFG, EXIT
+                cfg = CFG(init.node)
+                sts = [cfg.node_of(s) for s in walk_no_nested(init.node) if isinstance(s, (ast.Assign, ast.AnnAssign)) and getattr(s, "value", None) is not None and
+                       any(norm(t) == f"{init.self_name}.{attr}" for t in (s.targets if isinstance(s, ast.Assign) else [s.target]))]
+                sts = [x for x in sts if x is not None]
+                rebound = bool(sts) and cfg.must_pass(EXIT, sts)
+                break
+            if rebound:
+                continue
+            writers = []
+            for g in list(c.methods.values()) + list(c.setters.values()) + list(c.getters.values()) + \
+                    [m for k in M.subclasses.get(c.name, []) for m in k.methods.values()]:
+                sn = g.self_name
+                if not sn:
+                    continue
+                for x in walk_no_nested(g.node):
+                    if isinstance(x, ast.Call) and isinstance(x.func, ast.Attribute) and norm(x.func.value) == f"{sn}.{attr}" and \
+                            x.func.attr in ("add", "append", "extend", "update", "insert", "remove", "discard", "pop", "clear", "setdefault", "sort", "popitem", "fill", "__setitem__"):
+                        writers.append((g, x))
+                    elif isinstance(x, (ast.Assign, ast.AugAssign)):
+                        for t in (x.targets if isinstance(x, ast.Assign) else [x.target]):
+                            if isinstance(t, ast.Subscript) and norm(t.value) == f"{sn}.{attr}":
+                                writers.append((g, x))
+                            elif isinstance(x, ast.AugAssign) and norm(t) == f"{sn}.{attr}":
+                                writers.append((g, x))
+            cf = next(iter(c.methods.values()), None)
+            if writers and not judge:
+                g, x = writers[0]
+                ctx.undecided(rule, g, x, f"`{c.name}.{attr} = {norm(v)[:50]}` is one object shared by every instance of {c.name} (bound at class level, not rebound by the "
+                              f"constructor on every path) and `{norm(x)[:60]}` mutates it: the rules of this property read `self.{attr}` as this object's own state "
+                              f"(not a verdict; the properties about independent objects judge it)", key=f"class-state:{c.name}.{attr}")
+            elif writers:
+                g, x = writers[0]
+                ctx.bad(rule, g, x, f"`{c.name}.{attr} = {norm(v)[:50]}` is bound once, at class level, and no constructor rebinds it on every path: `{norm(x)[:70]}` "
+                        f"in {g.qualname} mutates the one object every instance of {c.name} shares - instances (a continuum and its copies, a reference and its samples) "
+                        f"are not independent", key=f"class-state:{c.name}.{attr}")
+            else:
+                ctx.undecided(rule, cf, None, f"`{c.name}.{attr} = {norm(v)[:50]}` is a mutable object bound at class level and shared by all instances; no in-place "
+                              f"mutation through self was found (not a verdict)", construct=f"{c.name}.{attr}", key=f"class-state:{c.name}.{attr}")
+    return n
+
+
+PINNED_SPECIAL_METHODS = {
+    "Alignment": {"__getitem__", "__iter__"}, "Unit": {"__lt__"},
+    "Continuum": {"__add__", "__bool__", "__eq__", "__getitem__", "__iter__", "__len__", "__ne__"},
+    "Notebook": {"__call__", "__getitem__"},
+}
+_HARMLESS_SPECIAL_METHODS = {"__init__", "__repr__", "__str__", "__format__", "__doc__", "__post_init__", "__class_getitem__", "__sizeof__", "__dir__"}
+
+
+def check_special_methods(ctx: Ctx, rule: str = "R-SPECIAL-METHODS"):
+    """closedness guard: special methods change what the language itself does with an object - `copy.deepcopy` (`__deepcopy__`, `__reduce__`),
+    hashing and equality in sets / dict keys (`__hash__`, `__eq__`), truthiness and `len` (`__bool__`, `__len__`), attribute access
+    (`__getattr__`, `__setattr__`), ordering, iteration, `in`.  The rules were written against the special methods of the pinned tree (table
+    above); another one on a class this property analysed is reported UNDECIDED (not a verdict)."""
+    M = ctx.model
+    n = 0
+    analysed_classes = {M.functions[q].cls.name for q in ctx.functions_analysed if q in M.functions and M.functions[q].cls is not None}
+    related = set(analysed_classes)
+    for cn in analysed_classes:
+        related |= {k.name for k in M.mro(M.classes[cn])} | {k.name for k in M.subclasses.get(cn, [])}
+    for cn in sorted(related):
+        c = M.classes.get(cn)
+        if c is None:
+            continue
+        for name, g in list(c.methods.items()) + list(c.getters.items()):
+            if not (name.startswith("__") and name.endswith("__")) or name in _HARMLESS_SPECIAL_METHODS or name in PINNED_SPECIAL_METHODS.get(cn, set()):
+                continue
+            n += 1
+            ctx.undecided(rule, g, None, f"{cn} defines {name}, which the pinned tree does not: it changes how Python itself copies / hashes / compares / tests / "
+                          f"accesses instances of {cn}, and the rules of this property were not written with it in mind (not a verdict)",
+                          construct=f"{cn}.{name}", key=f"{cn}.{name}")
+    return n
+
+
+_NJIT_SEMANTIC_OPTIONS = ("fastmath", "parallel", "error_model", "boundscheck", "forceobj", "looplift", "nopython", "locals")
+
+
+def check_njit_options(ctx: Ctx, rule: str = "R-NJIT-OPTIONS"):
+    """closedness guard: every rule on a compiled kernel assumes 'numba compiles it with Python's arithmetic and evaluation order'.  Options
+    that change that (`fastmath` reassociates float sums and assumes no inf / nan, `parallel` makes reductions order-dependent, `error_model`
+    changes division) on a kernel this property analysed are reported UNDECIDED: the assumption is the package's to keep."""
+    M = ctx.model
+    n = 0
+
+    def options_of(e: ast.AST):
+        # nb.njit(sig, fastmath=True)  /  nb.njit(fastmath=True)(...)  -> keyword names with a value that is not False/None
+        out = []
+        for c in ast.walk(e):
+            if isinstance(c, ast.Call) and (dotted(c.func) or "").split(".")[-1] in ("njit", "jit", "vectorize", "guvectorize", "cfunc"):
+                out += [(k.arg, k.value) for k in c.keywords if k.arg in _NJIT_SEMANTIC_OPTIONS and not (isinstance(k.value, ast.Constant) and k.value.value in (False, None))]
+        return out
+    for qn in sorted(ctx.functions_analysed):
+        f = M.functions.get(qn)
+        if f is None or isinstance(f.node, ast.Lambda) or not getattr(f.node, "decorator_list", None):
+            continue
+        for d in f.node.decorator_list:
+            opts = options_of(d)
+            if isinstance(d, ast.Name) and d.id in f.module.globals_:        # dissimilarity_dec = nb.njit(...)
+                opts += options_of(f.module.globals_[d.id])
+            for name, val in opts:
+                if name in ("nopython",) and isinstance(val, ast.Constant) and val.value is True:
+                    continue
+                n += 1
+                ctx.undecided(rule, f, None, f"{qn} is compiled with `{name}={norm(val)}`: the rules on this kernel assume Python's arithmetic and evaluation order, "
+                              f"which this option gives up (float reassociation / order-dependent reductions / other division semantics); not a verdict",
+                              construct=f"njit option {name}", key=f"{qn}:{name}")
+    return n
+
+
 def check_overrides(ctx: Ctx, rule: str = "R-OVERRIDES"):
     """closedness guard: a rule that analysed `Class.m` speaks for every call `obj.m(...)` only if no subclass replaces m with code the
     rules did not look at.  An override of an analysed method that was itself not analysed is reported UNDECIDED (abstract methods are meant
